@@ -61,6 +61,7 @@ def obligations(tier):
     rng = (100, 107) if tier == "quick" else (100, 131)
     obs.append({"name": "search/range%d" % (rng[1] - rng[0] + 1), "fn": "ob_search", "params": {"lo": rng[0], "hi": rng[1]}, "fork": True, "max_paths": 4000, "timeout": to})
     obs.append({"name": "search/after-another-scheduler", "fn": "ob_search", "params": {"lo": 100, "hi": 103, "prior": True}, "fork": True, "max_paths": 4000, "timeout": to, "limit": 400})
+    obs.append({"name": "search/after-same-scheduler-other-clamps", "fn": "ob_search", "params": {"lo": 100, "hi": 103, "prior": "other-args"}, "fork": True, "max_paths": 4000, "timeout": to, "limit": 400})
     obs.append({"name": "forced-nf/plan", "fn": "ob_plan_forced", "params": {"lo": 100, "hi": 103}, "fork": True, "max_paths": 2000, "timeout": to})
     if tier == "thorough":
         split(obs, "new/step", "ob_new", {"part": "step"}, G, timeout=to, weight=5)
